@@ -546,3 +546,117 @@ def w3(proj, rep):
     rep.count('W3.configurations', n3)
     rep.count('W4.configurations', n4)
     return n3, n4
+
+
+# ------------------------------------------------------------------------------------------------ RB1
+RULES['RB1'] = ('RB1: the ball trivialization is a radial map ret = theta * h(r), r = ||theta||, with h a rational function of r; its image '
+                'lies in the open unit ball iff r*h(r) < 1 for all r >= 0, decided exactly on the polynomial den(r) - r*num(r).')
+
+
+class _Rat:
+    """num/den with univariate Poly in 'r'."""
+    def __init__(self, num, den=None):
+        self.num = Poly._coerce(num)
+        self.den = Poly._coerce(den) if den is not None else Poly.const(1)
+
+    def __add__(self, o):
+        return _Rat(self.num * o.den + o.num * self.den, self.den * o.den)
+
+    def __sub__(self, o):
+        return _Rat(self.num * o.den - o.num * self.den, self.den * o.den)
+
+    def __mul__(self, o):
+        return _Rat(self.num * o.num, self.den * o.den)
+
+    def __truediv__(self, o):
+        return _Rat(self.num * o.den, self.den * o.num)
+
+
+def _rat_eval(e, rname):
+    if isinstance(e, ast.Name) and e.id == rname:
+        return _Rat(Poly.var('r'))
+    if isinstance(e, ast.Constant) and isinstance(e.value, (int, float)) and float(e.value) == int(e.value):
+        return _Rat(Poly.const(int(e.value)))
+    if isinstance(e, ast.BinOp):
+        a, b = _rat_eval(e.left, rname), _rat_eval(e.right, rname)
+        if a is None or b is None:
+            return None
+        if isinstance(e.op, ast.Add):
+            return a + b
+        if isinstance(e.op, ast.Sub):
+            return a - b
+        if isinstance(e.op, ast.Mult):
+            return a * b
+        if isinstance(e.op, ast.Div):
+            return a / b
+        if isinstance(e.op, ast.Pow) and isinstance(e.right, ast.Constant) and isinstance(e.right.value, int) and 0 <= e.right.value <= 4:
+            r = _Rat(Poly.const(1))
+            for _ in range(e.right.value):
+                r = r * a
+            return r
+    return None
+
+
+def _coeffs(p):
+    """ascending coefficient list of a univariate Poly in r (floats)."""
+    deg = max([sum(ex for n, ex in k) for k in p.t] + [0])
+    out = [0.0] * (deg + 1)
+    for k, v in p.t.items():
+        d = sum(ex for n, ex in k)
+        out[d] += float(v)
+    return out
+
+
+def rb1(proj, rep):
+    import numpy as np
+    rep.rule('RB1', RULES['RB1'])
+    fi = proj.func('numqi.manifold._internal.to_ball')
+    m = fi.module
+    rep.touch(m)
+    n = 0
+    for st in ast.walk(fi.node):
+        if not (isinstance(st, ast.Assign) and isinstance(st.targets[0], ast.Name) and st.targets[0].id == 'ret'
+                and isinstance(st.value, ast.BinOp) and isinstance(st.value.op, (ast.Mult, ast.Div))):
+            continue
+        v = st.value
+        if not any(isinstance(x, ast.Name) and x.id == 'theta' for x in ast.walk(v)):
+            continue
+        # find the norm variable: a name assigned from (torch.)linalg.norm(theta, ...)
+        rname = None
+        for s2 in ast.walk(fi.node):
+            if isinstance(s2, ast.Assign) and isinstance(s2.targets[0], ast.Name) and isinstance(s2.value, ast.Call) \
+                    and ast.unparse(s2.value.func).endswith('linalg.norm') and s2.value.args and ast.unparse(s2.value.args[0]) == 'theta' \
+                    and s2.lineno < st.lineno and (rname is None or s2.lineno > rline):
+                rname, rline = s2.targets[0].id, s2.lineno
+        if rname is None:
+            continue
+        n += 1
+        construct = f'{fi.qual}[line {st.lineno - fi.node.lineno}]'
+        # ret = theta * H  or theta / H
+        if isinstance(v.left, ast.Name) and v.left.id == 'theta':
+            h = _rat_eval(v.right, rname)
+            if h is not None and isinstance(v.op, ast.Div):
+                h = _Rat(Poly.const(1)) / h
+        elif isinstance(v.right, ast.Name) and v.right.id == 'theta' and isinstance(v.op, ast.Mult):
+            h = _rat_eval(v.left, rname)
+        else:
+            h = None
+        if h is None:
+            rep.undecided('RB1', construct, f'`{ast.unparse(v)}` is not theta times a rational function of the norm', m, st)
+            continue
+        g = _Rat(Poly.var('r')) * h          # norm of the image
+        D = g.den - g.num                      # need D(r) > 0 for r >= 0 (den > 0 there)
+        cd = _coeffs(g.den)
+        cD = _coeffs(D)
+        den_pos = all(c >= 0 for c in cd) and cd[0] > 0
+        roots = [z.real for z in np.roots(cD[::-1]) if abs(z.imag) < 1e-9 and z.real >= 0] if len(cD) > 1 else []
+        lead = next((c for c in reversed(cD) if c != 0), 0.0)
+        if not den_pos:
+            rep.undecided('RB1', construct, f'denominator {g.den} is not manifestly positive', m, st)
+        elif lead > 0 and cD[0] > 0 and not roots:
+            rep.ok('RB1', construct, f'||ret|| = ({g.num})/({g.den}) < 1 for every r >= 0 (den - num = {D} > 0)', m, st)
+        else:
+            w = min(roots) if roots else None
+            rep.violation('RB1', construct, f'`{ast.unparse(st)}` has norm ({g.num})/({g.den}) with r = ||theta||; den - num = {D} is not positive on '
+                          f'r >= 0' + (f' (first zero at r = {w:.4g})' if w is not None else '') + ': the image leaves the unit ball', m, st)
+    return n
